@@ -22,6 +22,11 @@ P["C02"] = dict(
    note=TB + " Not proved: transcendental kernel accuracy; closed-form theorems for bitwise/shift/pow/sign (covered by the in-Coq correspondence). 11 known-finding classes.",
    technique="Coq theorems over a term model of the traced ONNX graphs (T-graph translation checked in Coq) + in-Coq evaluation of the model against implementation outputs",
    ref="DESIGN.md §5 C02")
+P["C04"] = dict(
+   text="Proof, partial. Coq: a decision procedure rule_holds checks, for a mask expression, every combination of operand mask bits and of the values of its data-dependent sub-expressions (atoms); theorem rule_holds_sound (all valuations) and theorem mask_rule link it to the evaluator: whenever the graph evaluates, the output element is null iff some nullable operand element is null, for every data, mask and payload - so the mask cannot depend on a payload. It is re-run on EVERY row of the element-wise table regenerated from /repo on each run (values expressions must not read a mask). Correspondence: every case on nullable data is executed twice with different payloads under the same nulls; outputs are compared with the NumPy statement of the masking rule, with the same ndonnx operation on the plain values, and with each other (payload independence), eager and traced. Partial: reductions, sorting, matmul, where and layout functions on nullable input have no theorem yet (payload-pair correspondence only).",
+   note=TB + " 5 known-finding classes (sort/matmul leak payloads, mean counts nulls, integer division by a null payload of 0, logical shortcuts drop nulls, predicates on nullable ints).",
+   technique="Coq decision procedure with soundness proof, re-run on the table regenerated from traced ONNX graphs + payload-pair correspondence",
+   ref="DESIGN.md §5 C04")
 NOT_YET = {}
 props = [json.loads(l) for l in open(V/'properties.jsonl')]
 checks, na = [], []
